@@ -75,7 +75,7 @@ def verify(seed):
     return 0 if res["ok"] else 1
 
 
-LANE = "/tmp/seedlane"
+LANE = os.environ.get("SEED_LANE", "/tmp/seedlane")
 
 
 def lane(seed, props):
